@@ -24,7 +24,7 @@ determinism)
     case "$id" in
       C16) bin="$HERE/build/plugsim.$k";;
       C20) bin="$HERE/build/agesim-race.$k"; export GORACE="log_path=$tmp/race halt_on_error=0 exitcode=0" AGESIM_RACE_LOG="$tmp/race" AGESIM_AST_BIN="$HERE/build/agesim-ast.$k";;
-      C15) export AGE_BIN="$HERE/build/age.$k" KEYGEN_BIN="$HERE/build/age-keygen.$k";;
+      C15|C11) export AGE_BIN="$HERE/build/age.$k" KEYGEN_BIN="$HERE/build/age-keygen.$k";;
     esac
     n=$N; [ "$id" = C15 ] && n=$((N/4)); [ "$id" = C20 ] && n=$((N/2))
     for seed in 1 7 12345; do
